@@ -89,12 +89,24 @@ def register(prop):
                       "no crashes in C08L plans, so every listed peer is live"],
          extra={"grid_cells": 486})
 
+    prop("C18", [dict(scn="C18", quick=8000, thorough=600000, wall_quick=100, wall_thorough=1500)],
+         "bench mode: receiver with a generated allowlist (IPv4 nets, IPv4+IPv6, /32 hosts, /16+/12, empty non-nil, nil); member x prior absent/alive/suspect/dead/left at an allowed "
+         "address; 1-10 claims whose advertised address is inside / outside / IPv4-mapped IPv6 of inside or outside / 0-, 3-, 5-byte / IPv6 inside or outside, carried by UDP alive "
+         "from an allowed or disallowed source, inside a compound, compressed, piggybacked on a ping, as push/pull entries over a real stream (join and anti-entropy) and direct merge, "
+         "incl. address-change and reclaim attempts; after every step no Members() entry, event argument or stored record address lies outside every allowed net (independent "
+         "containment routine); alive from a disallowed source leaves the full digest unchanged; non-trivial = allowlist configured and >=1 claim had to be rejected; distinct = distinct (list, prior, script)",
+         assumptions=["an empty non-nil CIDRsAllowed is treated as 'no allowlist' (that is what the code and the pinned tests do; the doc comment disagrees) - generated, must not panic, nothing else asserted"])
+
 NOT_CLAIMED = {}
 
 SIM_NOTE = ("trusted base: Go runtime + testing/synctest fake clock, the harness (scheduler, SimNet, oracles) under /verif/sim; "
             "assumes the guarded yield sites are the relevant preemption points; seeded search, not proof")
 
 META = {
+ "C18": dict(
+    level_text="Seeded claim scripts through every admission path (UDP, compound, compressed, piggyback, real push/pull streams, direct merge) against a real node with generated allowlists; invariant checked after every step with an independent containment routine.",
+    design_ref="DESIGN.md §3 C18", level_note=SIM_NOTE,
+    technique="deterministic simulation (bench mode): seeded admission-path scripts with allowlist invariant after every step"),
  "C08": dict(
     level_text="Complete enumeration of the 486-cell name/address ownership matrix against a real node in virtual time (record age vs reclaim time exact), plus seeded cluster runs in which the scheduler interleaves Leave with forged accusations at the Leave yield sites; oracles over the wire tap (self-signed dead sent before a nil return), peers' records (left, not dead), event logs and a per-step no-resurrection monitor.",
     design_ref="DESIGN.md §3 C08", level_note=SIM_NOTE,
